@@ -31,6 +31,9 @@ pub enum Neg {
     SwapBnodes(usize, usize),
     /// no mutation: a second, independently relabelled copy
     Copy,
+    /// move statement i between the default graph and a named graph (or to another named graph):
+    /// the statement itself is unchanged, only *where* it is asserted differs
+    MoveGraph(usize, u8),
 }
 
 #[derive(Clone, Debug, Serialize, Deserialize)]
@@ -289,6 +292,19 @@ fn apply_neg(a: &[MQ], neg: &Neg) -> (Vec<MQ>, &'static str) {
             out.push(q.clone());
             "add-statement"
         }
+        Neg::MoveGraph(i, k) => {
+            if n > 0 {
+                let q = &mut out[i % n];
+                q.g = match (&q.g, k % 3) {
+                    (None, 0) => Some(MT::iri("http://x/g")),
+                    (None, 1) => Some(MT::iri("http://x/zz")),
+                    (None, _) => Some(q.s.clone()).filter(|s| s.is_iri()).or(Some(MT::iri("http://x/g"))),
+                    (Some(_), 0) | (Some(_), 1) => None,
+                    (Some(g), _) => Some(if *g == MT::iri("http://x/zz") { MT::iri("http://x/g") } else { MT::iri("http://x/zz") }),
+                };
+            }
+            "move-to-other-graph"
+        }
         Neg::RemoveQuad(i) => {
             if n > 0 {
                 out.remove(i % n);
@@ -430,6 +446,7 @@ impl Check for C07 {
             2 => (0..32usize).prop_map(Neg::Split),
             3 => (0..32usize, 0..32usize).prop_map(|(a, b)| Neg::SwapBnodes(a, b)),
             1 => Just(Neg::Copy),
+            2 => (0..32usize, 0..3u8).prop_map(|(i, k)| Neg::MoveGraph(i, k)),
         ];
         (quads, prop::bool::weighted(0.3), any::<u64>(), prop::collection::vec(0..64usize, 0..24), 0..8u8, 0..8u8, neg, any::<u64>())
             .prop_map(|(quads, as_graph, salt, swaps, cont_a, cont_b, neg, neg_salt)| Case { quads, as_graph, salt, swaps, cont_a, cont_b, neg, neg_salt })
